@@ -10,7 +10,7 @@ LEVEL = {
     "C02": ("proof", "Theorems C02_no_false_reject / C02_transparent (CtxComplete, CallComplete: a queue that one assignment satisfies, with names inside expressions bound earlier or by the provider, is accepted - no exception at all - and the wrapper returns the body's value). Correspondence: conforming contexts in every call style; call count, identity of result and arguments observed." + CORR, "DESIGN.md 7 C02"),
     "C03": ("proof", "Theorems C03_check_iff / C03_error_factual / C03_no_other_exception for every annotation the model can construct and every shape (front/back alignment stated with rev, independent of the index arithmetic) + exhaustive small-scope correspondence through TensorTypeBase.check." + CORR, "DESIGN.md 7 C03"),
     "C04": ("proof", "Finite theorem C04_tables (+ supersets, Int = Signed u Unsigned, same table on shared dtypes) re-proved on every run against DTYPES tuples reflected from the running code into coq/gen/GenDtypes.v; the model of `dtype in DTYPES` validated exhaustively against real check() for every class x library x dtype kind.", "DESIGN.md 7 C04"),
-    "C05": ("proof", "Theorems C05_parse_eval / C05_parse_eval_named / C05_shape_level (whole shape strings: dimensions joined by spaces, one optional multi-axis marker): every string of the stratified grammar is accepted, parsed to the grammar's postfix program and evaluates to the arithmetic value under every identifier-keyed scope (lexer round trip, count check, shunting-yard invariant, postfix evaluation; no bound on nesting or length)." + CORR, "DESIGN.md 7 C05"),
+    "C05": ("proof", "Theorems C05_parse_eval / C05_parse_eval_named / C05_shape_level (whole shape strings: dimensions joined by spaces, one optional multi-axis marker) / C05_source_tables (operator semantics, precedence order, operator classes and strings, identifier pattern as translated from the source text on this run): every string of the stratified grammar is accepted, parsed to the grammar's postfix program and evaluates to the arithmetic value under every identifier-keyed scope (lexer round trip, count check, shunting-yard invariant, postfix evaluation; no bound on nesting or length)." + CORR, "DESIGN.md 7 C05"),
     "C06": ("proof", "Theorems C06_accept_sound / C06_only_syntax_error / C06_no_late_error for every string (AcceptSound, ShapeSound: an accepted string consists of documented dimension forms with the grammar's postfix program, a rejection is SyntaxError, later evaluation fails only for unbound names or undefined arithmetic). Correspondence: corpus, exhaustive alphabet strings, mutations, identifier positions, noise; reference = independent recogniser." + CORR, "DESIGN.md 7 C06"),
     "C07": ("proof", "Theorems C07_args_first / C07_return_checked / C07_value_only_after_both on the phase structure of run_call + correspondence with a side-effect log in the wrapped body: one fault in a single argument position or only in the return value." + CORR, "DESIGN.md 7 C07"),
     "C08": ("proof", "Theorems C08_first_failing_tensor / C08_tensor_report / C08_axis_report / C08_only_dltype_or_arithmetic (Reports, NoCrash: what a rejection asserts is true of the named tensor under the bindings established before it; the only non-DLType exceptions are the arithmetic ones = known finding K1). Correspondence: single-fault reports field by field, multi-fault factuality." + CORR, "DESIGN.md 7 C08"),
@@ -32,6 +32,7 @@ TECH["C05"] = TECH["C18"] = "Coq 8.16 proof about a hand-written executable mode
 TECH["C13"] = "Coq 8.16 theorems over the configuration model + exhaustive fresh-interpreter correspondence"
 TECH["C15"] = "Coq 8.16 proof about a hand-written executable model (structural relabelling theorem) + finite theorem (vm_compute) over tables regenerated from the running code + extracted-model/implementation correspondence"
 TECH["C04"] = TECH["C20"] = "Coq 8.16 finite theorem (vm_compute) over tables regenerated from the running code + exhaustive correspondence"
+NOTE_SRC = "Trusted: Coq kernel; extraction (ExtrOcamlBasic/ExtrOcamlString) and ocaml/driver.ml; harness generators and canonicalisation; the source translator harness/srctie.py (fail-soft); apart from the translated tables and formulas the hand-written model is tied to /repo behaviourally (DESIGN.md 5, 9)."
 NOTE = "Trusted: Coq kernel; extraction (ExtrOcamlBasic/ExtrOcamlString) and ocaml/driver.ml; harness generators and canonicalisation; the hand-written model is tied to /repo only behaviourally (DESIGN.md 5, 9)."
 
 
@@ -50,7 +51,7 @@ def main() -> None:
                 "replay_cmd_template": "bin/vcheck replay {path}",
                 "engine": "coq+correspondence",
                 "level_claimed": {"category": cat, "text": text, "design_ref": ref},
-                "level_note": NOTE,
+                "level_note": NOTE_SRC if pid in ("C05", "C06", "C18") else NOTE,
                 "technique": TECH[pid],
             })
         else:
